@@ -73,6 +73,14 @@ def gen_triple(rng, tier="quick"):
                     e["name"] = newname
             units[victim]["name"] = newname
     rng.shuffle(us)
+    if rng.random() < 0.25 and len(us) >= 2:
+        # a memory-access entry naming a capability that only ANOTHER unit declares (legal: the list is matched against
+        # the capabilities known in the whole processor); when that unit comes later in the file the entry is a reference
+        # made before the definition (seeded change C13-8)
+        i, j = rng.sample(range(len(us)), 2)
+        extra = [c for c in us[j]["capabilities"] if c not in us[i]["capabilities"]]
+        if extra:
+            us[i]["memoryAccess"] = list(us[i].get("memoryAccess", [])) + [rng.choice(extra)]
     es = [[units[a]["name"], units[b]["name"]] for a, b in sorted(edges)]
     rng.shuffle(es)
     # a dead branch now and then (pruning + set-valued dead ends for C20)
@@ -108,7 +116,31 @@ def gen_triple(rng, tier="quick"):
         lines.append(m.upper() + " " + ", ".join(ops))
         if rng.random() < 0.1:
             lines.append("")
-    return {"desc": desc, "isa": isa, "lines": lines}
+    x = {"desc": desc, "isa": isa, "lines": lines}
+    if rng.random() < 0.3:
+        # blanks other than space / tab around tokens and commas (ASCII characters `str.isspace` accepts and a text file
+        # does not treat as line ends): applied by `rendered` for the library, the model and the command line alike
+        x["ws"] = [[rng.choice(ODD_WS), rng.choice(ODD_WS + ["", " "])] if rng.random() < 0.5 else None for _ in lines]
+    return x
+
+
+ODD_WS = ["\x0b", "\x0c", "\x1c", "\x1d", "\x1e", "\x1f", " \x0c", "\t\x0b "]
+
+
+def rendered(x):
+    """the program text as written to the file / handed to the library: `lines` with the optional odd blanks of `ws`"""
+    ws = x.get("ws")
+    if not ws:
+        return list(x["lines"])
+    out = []
+    for k, ln in enumerate(x["lines"]):
+        w = ws[k] if k < len(ws) else None
+        if w is None or not ln.strip() or " " not in ln:
+            out.append(ln)
+            continue
+        m, rest = ln.split(" ", 1)
+        out.append(m + w[0] + ("," + w[1]).join(rest.split(", ")))
+    return out
 
 
 def twin_of(rng, x):
@@ -117,8 +149,16 @@ def twin_of(rng, x):
     if not us:
         return y
     u = rng.choice(us)
-    kind = rng.choice(["acl", "acl", "width", "rlock", "wlock"])
-    if kind == "acl":
+    kind = rng.choice(["acl", "acl", "width", "rlock", "wlock", "name-case", "name-case"])
+    if kind == "name-case":
+        # the same processor with one unit's name spelled in another case everywhere: a different (equally legal)
+        # description; state cached under a case-insensitive key makes its result depend on what ran before (C20-8)
+        old = u["name"]
+        new = old.swapcase()
+        if new != old:
+            u["name"] = new
+            y["desc"]["dataPath"] = [[new if n == old else n for n in e] for e in y["desc"]["dataPath"]]
+    elif kind == "acl":
         u["memoryAccess"] = [] if u.get("memoryAccess") else list(u["capabilities"])
     elif kind == "width":
         u["width"] = u["width"] + 1 if u["width"] < 3 else u["width"] - 1
@@ -277,7 +317,7 @@ def pipeline(x, upto="sim"):
         unchanged("capability set", abilities_before, set(abilities))
         unchanged("processor (after get_abilities/load_isa)", res["proc_exact"], comp_sim.proc_json(proc))
     res["isa"] = sorted([k, v] for k, v in isa.items())
-    lines_arg = [ln + "\n" for ln in x["lines"]]
+    lines_arg = [ln + "\n" for ln in rendered(x)]
     lines_before = list(lines_arg)
     try:
         prog = program_utils.read_program(lines_arg)
@@ -330,6 +370,25 @@ def pipeline(x, upto="sim"):
     return res
 
 
+def first_spelling_violation(x, res):
+    """C13, second half of its first sentence: every register of the parsed program is reported in the spelling of its
+    first occurrence IN THIS program text (whatever was parsed before in the same process)"""
+    parsed = res.get("parsed")
+    if not isinstance(parsed, list):
+        return None
+    first = {}
+    for ln in x["lines"]:
+        if not ln.strip() or " " not in ln:
+            continue
+        for op in ln.split(" ", 1)[1].split(", "):
+            first.setdefault(op.lower(), op)
+    for srcs, dst, _name, line in parsed:
+        for r in [dst, *srcs]:
+            if r.lower() in first and r != first[r.lower()]:
+                return f"register {r!r} on line {line} is not reported in its first spelling {first[r.lower()]!r}"
+    return None
+
+
 def c13_view(r):
     return {k: r.get(k) for k in ("proc", "isa", "prog", "sim")}
 
@@ -357,7 +416,7 @@ def run_cli(x, hashseed=None):
     import yaml
 
     y = yaml.safe_dump({"microarch": x["desc"], "ISA": {m: c for m, c in x["isa"]}})
-    text = "".join(ln + "\n" for ln in x["lines"])
+    text = "".join(ln + "\n" for ln in rendered(x))
     with tempfile.TemporaryDirectory(prefix="verif_e2e_") as td:
         with open(os.path.join(td, "p.yaml"), "w") as fh:
             fh.write(y)
@@ -415,7 +474,7 @@ def model_pipeline(x, proc_exact=None):
     """composed Lean model on the triple (None while the op is not available).  `proc_exact`: the implementation's
     ProcessorDesc in protocol form; only its *orders* are passed on (which valid sink-first order networkx picked is
     not fixed by any property, but the simulator's tie-breaks depend on it)."""
-    req = {"op": "pipeline", "desc": x["desc"], "isa": x["isa"], "lines": x["lines"]}
+    req = {"op": "pipeline", "desc": x["desc"], "isa": x["isa"], "lines": rendered(x)}
     if proc_exact is not None:
         req["order"] = {"in": [u["name"] for u in proc_exact["in"]], "inout": [u["name"] for u in proc_exact["inout"]],
                         "out": [f["model"]["name"] for f in proc_exact["out"]],
@@ -481,6 +540,8 @@ def evaluate(x, do_cli=True) -> dict:
             if base.get(st) != other.get(st):
                 o13 = f"re-casing non-defining occurrences changed the {st} stage result"
                 break
+    if o13 is None:
+        o13 = first_spelling_violation(x, base) or first_spelling_violation(x2, other)
     props["C13"] = {"app": accepted, "nontrivial": accepted and changed >= 3 and n >= 2, "k": k_ok, "o": o13}
 
     # ---- C16
